@@ -351,7 +351,7 @@ impl Prop for C04 {
         512
     }
     fn cases(&self) -> (u64, u64) {
-        (120_000, 4_000_000)
+        (250_000, 4_000_000)
     }
     fn rule(&self) -> &'static str {
         "choice bytes -> the widest definition generator (every wrapper on every node incl. catch, \
